@@ -310,11 +310,19 @@ impl<S: AsFd + 'static> Stream for WebSocketStream<S> {
         let mut this = self.project();
         loop {
             if this.next_item.is_some() {
-                ready!(this.inner.as_mut().poll_flush(cx))?;
-                ready!(futures_util::AsyncWrite::poll_flush(
-                    Pin::new(this.inner.get_mut().get_mut()),
-                    cx
-                ))?;
+                // Replies queued while reading (pong, close) are pushed out, but a message
+                // that has been read does not wait for them: with a large message of our
+                // own under way the flush only completes once the peer reads, and a peer
+                // doing the same would wait for us for ever.
+                if let Poll::Ready(res) = this.inner.as_mut().poll_flush(cx) {
+                    res?;
+                    if let Poll::Ready(res) = futures_util::AsyncWrite::poll_flush(
+                        Pin::new(this.inner.get_mut().get_mut()),
+                        cx,
+                    ) {
+                        res?;
+                    }
+                }
                 break Poll::Ready(this.next_item.take().expect("next_item should be Some"));
             } else {
                 let item = ready!(this.inner.as_mut().poll_next(cx));
